@@ -208,6 +208,48 @@ Fixpoint run (s : pstate) (ops : list pop) : pstate * list res :=
   | o :: t => let (s1, r) := pstep s o in let (s2, rs) := run s1 t in (s2, r :: rs)
   end.
 
+(* ---- several Laser nodes share one profile ------------------------------------------------------------
+   [base] is the profile with its first node as before; [extras] are the segments held by further Laser nodes
+   whose configure_geometry listens to the same notifier.  A notification ([fires]: an accepted setter whose
+   action is ANotify) rebuilds the geometry of every listening node; laser2.laser_profile = obj adds a node
+   (built from the current parameters); a node that is given another profile stops listening and leaves. *)
+Inductive mop :=
+| MOp (o : pop)                 (* a call on the profile *)
+| MAttachNode                   (* Laser(...).laser_profile = obj   (a further node) *)
+| MReplaceNode (i : nat).       (* extra node i: node.laser_profile = <another profile> *)
+
+Record mstate := mkM { base : pstate; extras : list (option (list (Q * Q))) }.
+
+Definition cur_segments (s : pstate) : option (list (Q * Q)) := segments (v_rad (vals s)) (v_len (vals s)).
+
+Definition fires (k : pkind) (o : pop) (r : res) : bool :=
+  match o, r with
+  | PSet f _, ROk => match action k f with ANotify => true | _ => false end
+  | _, _ => false
+  end.
+
+Fixpoint remove_nth {A} (i : nat) (l : list A) : list A :=
+  match i, l with
+  | _, [] => []
+  | O, _ :: t => t
+  | S j, x :: t => x :: remove_nth j t
+  end.
+
+Definition mstep (m : mstate) (o : mop) : mstate * res :=
+  match o with
+  | MOp o' =>
+      let (s', r) := pstep (base m) o' in
+      (mkM s' (if fires (kind (base m)) o' r then map (fun _ => cur_segments s') (extras m) else extras m), r)
+  | MAttachNode => (mkM (base m) (extras m ++ [cur_segments (base m)]), ROk)
+  | MReplaceNode i => (mkM (base m) (remove_nth i (extras m)), ROk)
+  end.
+
+Fixpoint mrun (m : mstate) (ops : list mop) : mstate * list res :=
+  match ops with
+  | [] => (m, [])
+  | o :: t => let (m1, r) := mstep m o in let (m2, rs) := mrun m1 t in (m2, r :: rs)
+  end.
+
 (* ---- constructors: the raw assignments of __init__, then its setter calls in source order ---- *)
 Record pargs := mkA { a_vals : pvals; a_pol : vec }.
 
